@@ -97,6 +97,11 @@ pub fn cases(ctx: &Ctx) -> Vec<WCase> {
         s.frames = 100_000;
         s.notify_ms = rr.pick(&[100u64, 300, 500]);
         s.timeout_ms = s.notify_ms + rr.pick(&[200u64, 1500]);
+        if rr.chance(0.15) {
+            // notify delay equal to or above the timeout: the interruption notice may be skipped, the order may not be reversed
+            s.timeout_ms = rr.pick(&[300u64, 500]);
+            s.notify_ms = s.timeout_ms + rr.pick(&[0u64, 0, 200]);
+        }
         s.link = Link { drop: 0.0, dup: 0.0, base_ms: rr.pick(&[0u64, 10, 30]), jitter_ms: rr.pick(&[0u64, 3]), outages: vec![], faults: vec![] };
         let mut outs = vec![];
         let mut t = 1500u64;
@@ -138,6 +143,46 @@ pub fn cases(ctx: &Ctx) -> Vec<WCase> {
         s.limit_ms = 61_000;
         s.settle_ms = 60_000;
         out.push(wcase(format!("pollonly-{i}"), s));
+    }
+    // E. a stalled application: one side does not poll at all across the notify delay AND the timeout
+    // of a silent peer, so both thresholds are crossed in one poll
+    for i in 0..ctx.n(600, 25_000) {
+        let mut rr = r.fork(0x5000_0000 + i as u64);
+        let mut s = Scn::base(rr.next());
+        // two peers only: with three, a sleeping survivor and an awake one cut the dead peer off at different frames,
+        // which is the open finding F3 of C10 (a panic), not an ordering matter
+        s.peers = rr.pick(&[vec![vec![0], vec![1]], vec![vec![0, 1], vec![2]], vec![vec![0], vec![1, 2]]]);
+        if rr.chance(0.3) {
+            s.specs.push(SpecCfg::new(0));
+        }
+        s.mp = rr.pick(&[0usize, 2, 8]);
+        s.frames = 100_000;
+        s.notify_ms = rr.pick(&[300u64, 500]);
+        s.timeout_ms = s.notify_ms + rr.pick(&[200u64, 1500]);
+        s.link = Link::clean(rr.pick(&[0u64, 10]));
+        // the last peer dies; node 0 sleeps from shortly after the death until after the timeout
+        let victim = s.peers.len() - 1;
+        let at = rr.range(1500, 2500);
+        s.kill = Some(Kill { node: victim, at_ms: at, pdrop: 1.0 });
+        let sleep_from = at + rr.range(20, s.notify_ms - 50);
+        let sleep_to = at + s.timeout_ms + rr.range(50, 800);
+        for k in 0..s.peers.len() {
+            let mut c = NodeCfg::default();
+            if k == 0 {
+                c.pauses.push((sleep_from, sleep_to));
+            }
+            s.nodes.push(c);
+        }
+        if let Some(sp) = s.specs.get_mut(0) {
+            if rr.chance(0.5) {
+                // the spectator of a host that goes to sleep is itself a stalled observer of that host
+                sp.pauses.push((sleep_from + 100, sleep_to + 2500));
+            }
+        }
+        s.start = Start::AllRunning;
+        s.limit_ms = sleep_to + 2500;
+        s.settle_ms = 0;
+        out.push(wcase(format!("stalledpoller-{i}"), s));
     }
     // D. the user never drains events: floods of Interrupted/Resumed, WaitRecommendation, DesyncDetected
     for i in 0..ctx.n(120, 4000) {
@@ -339,6 +384,14 @@ pub fn run_case(c: &WCase) -> Outcome {
                 check_silences(w, out);
                 out.nontrivial = w.any_event(|e| matches!(e, Ev::Resumed { .. }));
             }
+            "stalledpoller" => {
+                let n0 = &w.nodes[0];
+                let crossed_both_in_one_poll = n0.events.windows(2).any(|p| matches!((&p[0].1, &p[1].1), (Ev::Interrupted { addr: a, .. }, Ev::Disconnected { addr: b }) if a == b) && p[0].0 == p[1].0);
+                if crossed_both_in_one_poll {
+                    out.count("notify_and_timeout_crossed_in_one_poll", 1);
+                }
+                out.nontrivial = crossed_both_in_one_poll;
+            }
             "pollonly" => {
                 if let Some((n, (t, e))) = w.nodes.iter().flat_map(|n| n.events.iter().map(move |x| (n, x))).find(|(_, (_, e))| matches!(e, Ev::Interrupted { .. } | Ev::Disconnected { .. })) {
                     out.violate(v("sessions that merely poll saw an interruption with default timeouts", format!("node {} {:?} at t={} ms; poll periods {:?} ms, latency {} ms", n.addr, e, (t - T0) / MS, w.nodes.iter().map(|n| n.period / MS).collect::<Vec<_>>(), w.scn.link.base_ms), n.addr, *t));
@@ -365,7 +418,7 @@ pub fn check(ctx: &Ctx) -> i32 {
     let res = par_run(ctx, &cs, &|c: &WCase| c.id.clone(), &run_case);
     let meta = Meta {
         level: "exploration",
-        rule: "four families. (A) handshakes of 1-3 remotes and spectators over links with loss up to 50 %, duplication, reordering jitter and injected stray replies (exact duplicate, corrupted nonce, foreign address after every genuine SyncReply), advance_frame called from the very start: Running must coincide at every tick with 'every remote has 5 matched request/reply round trips' as counted by the harness from the packet log, advance_frame must return NotSynchronized exactly while not Running, the handshake must complete. (B) scripted silences on a player or spectator link with lengths on a 5 ms grid around the notify delay and the timeout (notify {100,300,500} ms, timeout notify+{200,1500} ms): per silence, NetworkInterrupted iff longer than notify (+one tick of slack) at the right time and with the right remaining-time field, NetworkResumed with the first packet after it, Disconnected iff longer than the timeout, nothing after Disconnected. (C) sessions that only poll (cadence 1..100 ms, latency 0..100 ms, default timeouts) for 60 s: no NetworkInterrupted. (D) sessions whose user never drains events for 3000-10000 frames with an interruption every 400 ms, speed skew (WaitRecommendation) and diverging games under detection interval 1 (DesyncDetected): queue length <= 100 at every API boundary (hook) and in events(). Every event stream of every family is run through the per-address lifecycle automaton. Non-trivial: (A) >=1 lost and >=1 duplicated/stray handshake packet, (B) >=1 Interrupted/Resumed pair, (C) 60 s completed, (D) the queue reached 100. Distinct: configuration + trace hash.".into(),
+        rule: "four families. (A) handshakes of 1-3 remotes and spectators over links with loss up to 50 %, duplication, reordering jitter and injected stray replies (exact duplicate, corrupted nonce, foreign address after every genuine SyncReply), advance_frame called from the very start: Running must coincide at every tick with 'every remote has 5 matched request/reply round trips' as counted by the harness from the packet log, advance_frame must return NotSynchronized exactly while not Running, the handshake must complete. (B) scripted silences on a player or spectator link with lengths on a 5 ms grid around the notify delay and the timeout (notify {100,300,500} ms, timeout notify+{200,1500} ms): per silence, NetworkInterrupted iff longer than notify (+one tick of slack) at the right time and with the right remaining-time field, NetworkResumed with the first packet after it, Disconnected iff longer than the timeout, nothing after Disconnected. (C) sessions that only poll (cadence 1..100 ms, latency 0..100 ms, default timeouts) for 60 s: no NetworkInterrupted. (E) a stalled application: one side does not poll across both the notify delay and the timeout of a peer that died, so both thresholds are crossed in a single poll (the automaton must still see NetworkInterrupted before Disconnected and nothing after); family (B) also includes notify delays equal to or above the timeout. (D) sessions whose user never drains events for 3000-10000 frames with an interruption every 400 ms, speed skew (WaitRecommendation) and diverging games under detection interval 1 (DesyncDetected): queue length <= 100 at every API boundary (hook) and in events(). Every event stream of every family is run through the per-address lifecycle automaton. Non-trivial: (A) >=1 lost and >=1 duplicated/stray handshake packet, (B) >=1 Interrupted/Resumed pair, (C) 60 s completed, (D) the queue reached 100, (E) both events were raised by the same poll. Distinct: configuration + trace hash.".into(),
         assumptions: std_assumptions(),
         floor_nontrivial: if ctx.quick() { 300 } else { 8000 },
         exhaustive: None,
